@@ -777,6 +777,22 @@ fn explore_attrs(idx: usize, e: &Entry, first: Option<usize>, thorough: bool, t:
                 }),
                 Obs::NoParse(_) => t.hit("generator_unparseable"),
             }
+            // the single attribute with every value forwarded in an invisible group
+            if base_src.contains(" = ") {
+                let gsrc = format!("{base_src}{}", crate::run::GROUPED);
+                let gobs = (e.run)(&gsrc);
+                t.evaluations += 1;
+                t.hit("grouped_values_inputs");
+                let gkey = outcome_key(&gobs);
+                if gkey != base_key {
+                    t.violate(Violation {
+                        key: format!("C08 family=[{}] src=`{gsrc}` :: grouped values: {gkey} vs {base_key}", e.prog.family),
+                        what: format!("[{}] `{gsrc}`: with the values inside invisible groups the outcome is {gkey}, written in place it is {base_key}", e.prog.family),
+                        case: json!({"engine": "corpus-attrs", "program": idx, "src": gsrc, "items": items}),
+                        detail: json!({}),
+                    });
+                }
+            }
             // every partition into consecutive blocks x every assignment of declared names
             let n = len;
             let cuts = if n == 0 { 1 } else { 1usize << (n - 1) };
